@@ -32,14 +32,14 @@ def _reviewed_lookup(reviewed: dict, key: str):
 
 
 def check_entry(chk: Check, mr: MayRaise, entry: FuncInfo, declared: Iterable[str], *, ctx: ClassInfo | None = None, label: str | None = None,
-                reviewed: dict[str, tuple[str, Callable[[], bool] | None]] | None = None, rule: str = "no-undeclared-escape") -> list[Esc]:
+                reviewed: dict[str, tuple[str, Callable[[], bool] | None]] | None = None, rule: str = "no-undeclared-escape", argkinds: dict[str, frozenset[str]] | None = None) -> list[Esc]:
     """Obligation: every exception class that can leave `entry` is (a subclass of) a declared one.
     `reviewed`: Esc.key -> (reason, validator): sites the engine cannot discharge but reading proves safe; the optional
     validator re-checks the structural fact the reason relies on, on every run."""
     declared = list(declared)
     lab = label or entry.qualname
     chk.unit(entry)
-    escs = mr.escapes(entry, ctx)
+    escs = mr.escapes(entry, ctx, argkinds)
     bad: list[Esc] = []
     n_decl = 0
     for e in sorted(escs, key=lambda x: (x.exc, x.func, x.stmt)):
